@@ -55,3 +55,163 @@ def trace(detector, **kwargs) -> None:
 def write_image(detector, value: int = 1, dtype: str = "uint16") -> None:
     """minimal image writer (keeps multi-readout exposures of writer-less pipelines legal)"""
     detector.image.array = np.full(detector.geometry.shape, value, dtype=dtype)
+
+
+# ---------------------------------------------------------------------------------------- C02
+# Per-run state of the C02 probes (set by harness/c02.py before every run).  The writer counts its
+# own calls: it must not rely on the clock it helps to observe.
+C02 = {"calls": 0, "plan": []}
+C02_BIG = 999_999_999  # token of "some content that is not one of the writer's constants"
+
+
+def _c02_tok(a):
+    if a is None:
+        return None
+    a = np.asarray(a)
+    if a.size and bool(np.all(a == a.flat[0])):
+        v = float(a.flat[0])
+        if v.is_integer() and 0 <= v < 10**6:
+            return int(v)
+    return C02_BIG
+
+
+def c02_state(detector) -> list:
+    """canonical tokens [scene, photon, charge, pixel, signal, image]; None = holds nothing
+    (charge: zero array and no clusters); pixel 0 = all-zero array.  Reads private fields only,
+    so that observing never converts or initialises anything."""
+    tree = detector._scene.data
+    if tree.is_empty and not tree.children:
+        scene = None
+    elif "tok" in tree.children:
+        scene = int(tree["tok"]["v"])
+    else:
+        scene = C02_BIG
+    ch = detector._charge
+    if len(ch._frame):
+        charge = 10**6 + int(round(float(ch._frame["number"].sum())))
+    else:
+        charge = _c02_tok(ch._array)
+        if charge == 0:
+            charge = None
+    return [scene, _c02_tok(detector._photon._array), charge, _c02_tok(detector._pixel._array),
+            _c02_tok(detector._signal._array), _c02_tok(detector._image._array)]
+
+
+def c02_apply(detector, ops) -> None:
+    """apply write operations [["set", bucket, k|None] | ["add", k]] to the detector's buckets"""
+    import xarray as xr
+    from pyxel.data_structure import Scene
+
+    shape = detector.geometry.shape
+    for op in ops:
+        if op[0] == "add":
+            detector.pixel.__iadd__(np.full(shape, float(op[1])))
+            continue
+        _, b, k = op
+        if b == "scene":
+            s = Scene()
+            if k is not None:
+                s.data["/tok"] = xr.DataTree(xr.Dataset({"v": int(k)}))
+            detector.scene = s
+        elif b == "photon":
+            if k is None:
+                detector.photon.empty()
+            else:
+                detector.photon.array = np.full(shape, float(k))
+        elif b == "charge":
+            detector.charge.empty()
+            if k is None:
+                pass
+            elif k >= 10**6:
+                z = np.zeros(1)
+                detector.charge.add_charge(
+                    particle_type="e", particles_per_cluster=np.array([float(k - 10**6)]), init_energy=z,
+                    init_ver_position=z, init_hor_position=z, init_z_position=z,
+                    init_ver_velocity=z, init_hor_velocity=z, init_z_velocity=z,
+                )
+            else:
+                detector.charge.add_charge_array(np.full(shape, float(k)))
+        elif b == "pixel":
+            if k is None:
+                detector.pixel.update(None)
+            else:
+                detector.pixel.array = np.full(shape, float(k))
+        elif b == "signal":
+            if k is None:
+                detector.signal.empty()
+            else:
+                detector.signal.array = np.full(shape, float(k))
+        elif b == "image":
+            if k is None:
+                detector.image.empty()
+            else:
+                detector.image.array = np.full(shape, int(k), dtype=np.uint32)
+        else:
+            raise ValueError(b)
+
+
+def c02_probe(detector, where: str = "begin") -> None:
+    """C02: record the clock the models see and the state of all buckets"""
+    rp = detector.readout_properties
+    LOG.append(
+        (
+            "c02", where,
+            float(detector.time), float(detector.time_step), float(detector.absolute_time),
+            int(detector.pipeline_count), bool(detector.is_first_readout), bool(detector.is_last_readout),
+            int(detector.num_steps),
+            (float(rp.time), float(rp.time_step), float(rp.absolute_time), int(rp.pipeline_count),
+             bool(rp.is_first_readout), bool(rp.is_last_readout), int(rp.num_steps)),
+            c02_state(detector),
+        )
+    )
+
+
+def c02_writer(detector) -> None:
+    """C02: apply the writes planned for this call (own call counter, not the detector's clock)"""
+    i = C02["calls"]
+    C02["calls"] = i + 1
+    plan = C02["plan"]
+    c02_apply(detector, plan[i] if i < len(plan) else [])
+
+
+def fill(detector, level: float = 100.0, bucket: str = "photon") -> None:
+    """deterministic writer: fill a bucket with `level * time_step` (photon/pixel/signal) everywhere"""
+    shape = detector.geometry.shape
+    arr = np.full(shape, float(level) * float(detector.time_step), dtype=float)
+    if bucket == "photon":
+        detector.photon.array = arr
+    elif bucket == "pixel":
+        detector.pixel.array = arr
+    elif bucket == "signal":
+        detector.signal.array = arr
+    else:
+        raise ValueError(bucket)
+
+
+def noisy_to_image(detector, scale: float = 1.0) -> None:
+    """stochastic model WITHOUT its own seed: image = clip(photon + N(0, scale)) — reproducible only
+    under a pipeline seed (draws from the process-wide generator)."""
+    base = detector.photon.array if detector.photon._array is not None else np.zeros(detector.geometry.shape)
+    noise = np.random.normal(scale=scale, size=base.shape)
+    detector.pixel.array = np.asarray(base + noise, dtype=float)
+    detector.image.array = np.clip(np.rint(base + noise), 0, 65535).astype(np.uint16)
+
+
+def cal_probe(detector, **kwargs) -> None:
+    """C09/C10/C11: calibration probe.  Logs the arguments it receives and fills every bucket with
+    `base + s` where `base[y, x] = y*cols + x + 100*pipeline_count` and `s` = sum of all numeric
+    arguments (exact when the arguments are small integers / dyadic numbers)."""
+    LOG.append(("cal", canon_kwargs(kwargs), int(detector.pipeline_count)))
+    rows, cols = detector.geometry.shape
+    s = 0.0
+    for v in kwargs.values():
+        if isinstance(v, str | bool) or v is None:
+            continue
+        s += float(np.sum(np.asarray(v, dtype=float)))
+    base = np.arange(rows * cols, dtype=float).reshape(rows, cols) + 100.0 * detector.pipeline_count
+    data = base + s
+    detector.photon.array = np.clip(data, 0.0, None)
+    detector.charge.add_charge_array(data)
+    detector.pixel.array = data.copy()
+    detector.signal.array = data.copy()
+    detector.image.array = np.asarray(np.clip(np.floor(data), 0, 2**31), dtype="uint32")
